@@ -883,6 +883,26 @@ theorem reachableH_no_hang {cap maxB : Nat} {blocking : Bool} {s : St} {h : List
     have := emit_no_hang s l
     simp [ih, this]
 
+/-- the model emits no hang event of any kind -/
+theorem emit_no_hangX (s : St) (l : Lbl) (bl : Bool) (pre : List Ev) :
+    ∀ ev ∈ emit s l, Spec.judgeHang bl pre ev = none := by
+  unfold emit
+  split
+  · cases l <;> simp only [emitRaw] <;> (repeat' split) <;> simp [Spec.judgeHang]
+  · simp
+
+theorem reachableH_no_hangs {cap maxB : Nat} {blocking : Bool} {s : St} {h : List Ev}
+    (hr : ReachableH cap maxB blocking s h) (bl : Bool) (pre : List Ev) :
+    ∀ ev ∈ h, Spec.judgeHang bl pre ev = none := by
+  induction hr with
+  | init => simp
+  | @step s s' h l _ _ ih =>
+    intro ev hev
+    simp only [List.mem_append] at hev
+    rcases hev with hev | hev
+    · exact ih ev hev
+    · exact emit_no_hangX s l bl pre ev hev
+
 /-- the `endedUnsampled` events of a step are exactly the ids it adds to the ghost `unsampled` -/
 theorem step_unsampled (s s' : St) (l : Lbl) (hs : step s l = some s') :
     s'.unsampled = (Spec.unsampledIds (emit s l)).reverse ++ s.unsampled := by
